@@ -1,6 +1,7 @@
 import VaxisModel.Model.Vxfw
 import VaxisModel.Spec.Routing
 import VaxisModel.Lemmas.Vxfw
+import VaxisModel.Lemmas.VxfwHover
 
 /-!
 # C15 — vxfw routes events capture-target-bubble and keeps focus and hover consistent
@@ -62,6 +63,20 @@ theorem key_routing_after_frame (o o' : Oracle) (fuel : Nat) (s : St) (t : STree
 
 example : chain 2 (.node 0 9 9 [(0, 0, 0, .node 1 3 3 [(0, 0, 0, .node 2 1 1 [])])]) = some [0, 1, 2] := by decide
 
+
+/-- The reading of the property over *drawn* trees — after a frame that drew `t` and any command,
+a dispatchable event is routed along the drawn chain of the widget that is focused now — is
+false of the code (`Witness/F115a.lean`): `focusWidget` does not touch `path`. What holds is
+`key_routing` (over the stored path) and `key_routing_after_frame`. -/
+def key_routing_drawn_full : Prop :=
+  ∀ (o : Oracle) (fuel : Nat) (s : St) (t : STree) (c : Cmd) (ev : Ev), Routable ev →
+    ∀ p, chain (handleCommand o fuel (updatePath o fuel s t) c).focused t = some p →
+      ∃ tr, (handleEvent o fuel (handleCommand o fuel (updatePath o fuel s t) c) ev).trace =
+          (handleCommand o fuel (updatePath o fuel s t) c).trace ++ tr ∧
+        conforms ev (handleCommand o fuel (updatePath o fuel s t) c).focused
+          (planOf o.captures (expectedPath s.root t (handleCommand o fuel (updatePath o fuel s t) c).focused) .focusTgt)
+          tr = true
+
 /-- **focus_change_once** (history form). If no widget answers a FocusOut notification with a
 focus command, then whatever a command does — including focus changes nested in FocusIn
 handlers — the focus notifications it produces come in pairs FocusOut(current) … FocusIn(new),
@@ -92,7 +107,7 @@ theorem focus_change_single (o : Oracle) (fuel : Nat) (s : St) (w : Id) (hne : s
   simp
 
 /-- The full statement (no hypothesis on the oracle) is false of the code: see
-`Witness/F116.lean` (a FocusOut handler that returns a focus command). -/
+`Witness/F115b.lean` (a FocusOut handler that returns a focus command). -/
 def focus_change_once_full : Prop :=
   ∀ (o : Oracle) (fuel : Nat) (s : St) (c : Cmd),
     ∃ t, (handleCommand o fuel s c).trace = s.trace ++ t ∧
@@ -128,5 +143,145 @@ theorem mouse_routing (o : Oracle) (fuel : Nat) (s : St) (col row : Int) :
     obtain ⟨t, ht, _, _, _, hc⟩ := dispatch_conforms (ev := .mouse col row) ⟨by simp, by simp⟩ o fuel
       (s1.lastHits.map (·.w)) (fun _ => tg.w) (.tgt tg.w) (fun _ => rfl) s1
     exact ⟨t, ht, hc⟩
+
+
+/-- **hit_chain** (what the code guarantees in general, overlapping siblings included). With
+sizes that fit `uint16`, the hit list computed by `mouseHandler.update` is the pre-order list of
+all surfaces that contain the pointer and all of whose ancestors contain it (children in slice
+order, i.e. ascending z after a render), with local coordinates; so the last element — the
+target — is the deepest surface along the *last* (topmost) containing child at each level. -/
+theorem hit_list_is_under (t : STree) (hs : sizesOk t = true) (col row : Int) :
+    hitsAt t col row = underRoot t col row :=
+  hitsAt_eq_underRoot t hs col row
+
+/-- **hit_chain.** If at every surface on the way down at most one child contains the pointer
+(no overlapping siblings at the point), the hit list is the ancestor chain, root first, of the
+deepest surface containing the pointer, which is therefore the target. -/
+theorem hit_chain (t : STree) (hs : sizesOk t = true) (col row : Int)
+    (hin : inRect 0 0 t.w t.h col row = true) (hno : noOverlapAt 0 0 t col row = true) :
+    hitsAt t col row = descend 0 0 t col row := by
+  rw [hit_list_is_under t hs, underRoot, if_pos hin]
+  exact under_eq_descend col row t 0 0 hno
+
+/-- Non-vacuity, and what overlap does: children 1 (z 0) and 2 (z 1) overlap at (1,1); both are
+hit, 2 (drawn on top) is the target. -/
+example :
+    hitsAt (sortTree (.node 0 9 9 [(0, 0, 1, .node 2 4 4 []), (1, 1, 0, .node 1 4 4 [])])) 1 1 =
+      [⟨1, 1, 0⟩, ⟨0, 0, 1⟩, ⟨1, 1, 2⟩] := by decide
+
+example : noOverlapAt 0 0 (.node 0 9 9 [(0, 0, 0, .node 1 2 2 []), (3, 3, 0, .node 2 4 4 [])]) 4 4 = true ∧
+    descend 0 0 (.node 0 9 9 [(0, 0, 0, .node 1 2 2 []), (3, 3, 0, .node 2 4 4 [])]) 4 4 =
+      [⟨4, 4, 0⟩, ⟨1, 1, 2⟩] := by decide
+
+/-- **commands_once** (commands without focus). Running a returned command value that contains no
+focus command — however deeply batched — appends exactly the effects of its non-batch commands,
+in order, once each; flags are set accordingly and nothing else changes. -/
+theorem commands_once_plain (o : Oracle) (fuel : Nat) (s : St) (c : Cmd) (hnf : NoFocusAtoms c) :
+    handleCommand o (fuel + 1) s c =
+      { s with
+        redraw := s.redraw || c.flatten.any (fun a => a == .redraw || a == .debug)
+        refresh := s.refresh || c.flatten.any (· == .refresh)
+        quit := s.quit || c.flatten.any (· == .quit)
+        consume := s.consume || c.flatten.any (· == .consume)
+        debug := s.debug || c.flatten.any (· == .debug)
+        trace := s.trace ++ effsOf c.flatten } := by
+  simp only [handleCommand]
+  exact foldl_nofocus _ o _ hnf s
+
+/-- **commands_once.** For every command value, oracle and state: the trace appended by
+`handleCommand` is the concatenation of one stretch per non-batch command of the flattened
+value, in order: a single effect entry for redraw/refresh/quit/consume/debug/other, and for a
+focus command either nothing (already focused) or one FocusOut … `focused := w`, FocusIn …
+stretch. -/
+theorem commands_once (o : Oracle) (fuel : Nat) (s : St) (c : Cmd) :
+    ∃ segs : List (List Entry),
+      (handleCommand o (fuel + 1) s c).trace = s.trace ++ segs.flatten ∧ SegsOf c.flatten segs := by
+  simp only [handleCommand]
+  refine atomSeg_foldl o _ (fun s c => ?_) _ s
+  obtain ⟨⟨t, ht, _⟩, _⟩ := ext_handleCommand (ev := .init) ⟨by simp, by simp⟩ o fuel s c
+  exact ⟨t, ht⟩
+
+example : Cmd.flatten (.batch [.redraw, .slice [.consume, .batch [.other 3]], .focus 2]) =
+    [.redraw, .consume, .other 3, .focus 2] := by decide
+
+
+/-- The full hover statement: for every history of the Run loop, the MouseEnter / MouseLeave
+notifications alternate per widget. False of the code (`Witness/F43.lean`): a terminal FocusIn
+sends the root a MouseEnter the hit list does not know about. -/
+def hover_alternates_full : Prop :=
+  ∀ (o : Oracle) (fuel : Nat) (root : Id) (t0 : STree) (steps : List Step),
+    HitsNodup t0 → (∀ st ∈ steps, match st with
+      | .ev _ => True
+      | .frame t1 t2 => HitsNodup t1 ∧ HitsNodup (sortTree t1) ∧ HitsNodup (sortTree t2)) →
+    (hoverRun [] (runSteps o fuel (runInit o fuel root t0) steps).trace).isSome
+
+/-- **hover_alternates** (partial: histories without terminal FocusIn events; every drawn tree
+shows each widget at most once under any point). Over the whole history of the Run loop — Init,
+any events, any frames, any widget behaviour — the MouseEnter/MouseLeave notifications of each
+widget alternate starting with Enter, and the widgets whose last notification is Enter are
+exactly the widgets of the mouse handler's hit list. -/
+theorem hover_alternates_partial (o : Oracle) (fuel : Nat) (root : Id) (t0 : STree) (steps : List Step)
+    (h0 : HitsNodup t0) (hs : ∀ st ∈ steps, StepOk st) :
+    ∃ hs, hoverRun [] (runSteps o fuel (runInit o fuel root t0) steps).trace = some hs ∧
+      ∀ w, w ∈ hs ↔ w ∈ (runSteps o fuel (runInit o fuel root t0) steps).lastHits.map Hit.w := by
+  obtain ⟨hi, hf⟩ := hov_runInit o fuel root t0 h0
+  obtain ⟨⟨hs', hr, _, _, hm⟩, _⟩ := hov_runSteps o fuel steps hs _ hf hi
+  exact ⟨hs', hr, hm⟩
+
+/-- … and are all closed when terminal focus leaves: after a FocusOut event every widget's last
+hover notification is MouseLeave. -/
+theorem hover_closed_on_focus_out (o : Oracle) (fuel : Nat) (root : Id) (t0 : STree) (steps : List Step)
+    (h0 : HitsNodup t0) (hs : ∀ st ∈ steps, StepOk st) :
+    hoverRun [] (runEvent o fuel (runSteps o fuel (runInit o fuel root t0) steps) .focusOut).trace = some [] := by
+  obtain ⟨hi, hf⟩ := hov_runInit o fuel root t0 h0
+  obtain ⟨hi', _⟩ := hov_runSteps o fuel steps hs _ hf hi
+  have hi0 : HovInv { runSteps o fuel (runInit o fuel root t0) steps with mouse := none } := hi'
+  exact (mouseExit_inv o fuel _ hi0).1
+
+/-- … and when the pointer leaves: after a mouse event outside the root surface every widget's
+last hover notification is MouseLeave. -/
+theorem hover_closed_on_pointer_leave (o : Oracle) (fuel : Nat) (root : Id) (t0 : STree) (steps : List Step)
+    (h0 : HitsNodup t0) (hs : ∀ st ∈ steps, StepOk st) (c r : Int)
+    (hout : containsPoint 0 0 (runSteps o fuel (runInit o fuel root t0) steps).lastFrame.w
+      (runSteps o fuel (runInit o fuel root t0) steps).lastFrame.h c r = false) :
+    hoverRun [] (runEvent o fuel (runSteps o fuel (runInit o fuel root t0) steps) (.mouse c r)).trace = some [] := by
+  obtain ⟨hi, hf⟩ := hov_runInit o fuel root t0 h0
+  obtain ⟨hi', hf'⟩ := hov_runSteps o fuel steps hs _ hf hi
+  generalize runSteps o fuel (runInit o fuel root t0) steps = s at *
+  have hi0 : HovInv { s with mouse := some (c, r) } := hi'
+  have hu := (mouseUpdate_inv o fuel { s with mouse := some (c, r) } s.lastFrame hf' hi0).1
+  have hl : (mouseUpdate o fuel { s with mouse := some (c, r) } s.lastFrame).lastHits = [] := by
+    rw [mouseUpdate_lastHits o fuel _ _ c r rfl]
+    simp [hitsAt, hout]
+  simp only [runEvent, mouseHandleEvent, hl, List.getLast?_nil]
+  obtain ⟨hs', hr, _, _, hm⟩ := hu
+  rw [hl] at hm
+  have : hs' = [] := List.eq_nil_iff_forall_not_mem.mpr (fun w hw => by simpa using (hm w).mp hw)
+  rw [hr, this]
+
+/-- Non-vacuity of the hypotheses: a tree with distinct widgets meets `HitsNodup`-style
+requirements at a sample point, and hover notifications really occur. -/
+example :
+    (runSteps ⟨fun _ _ _ _ => .redraw, fun _ => false⟩ 4
+      (runInit ⟨fun _ _ _ _ => .redraw, fun _ => false⟩ 4 0 (.node 0 9 9 [(1, 1, 0, .node 1 3 3 [])]))
+      [.ev (.mouse 2 2), .ev (.mouse 7 7), .ev .focusOut]).trace.filter
+        (fun e => isRouted .mouseEnter e || isRouted .mouseLeave e) =
+    [.call 0 .mouseEnter .target, .call 1 .mouseEnter .target,
+     .call 0 .mouseLeave .target, .call 1 .mouseLeave .target, .call 0 .mouseEnter .target,
+     .call 0 .mouseLeave .target] := by decide
+
+
+/-- **hover_alternates** in terms of the trees themselves: it suffices that every drawn tree shows
+each widget at most once (render's child sort keeps that). -/
+theorem hover_alternates_distinct (o : Oracle) (fuel : Nat) (root : Id) (t0 : STree) (steps : List Step)
+    (h0 : (ids t0).Nodup) (hs : ∀ st ∈ steps, StepDistinct st) :
+    (∃ hs, hoverRun [] (runSteps o fuel (runInit o fuel root t0) steps).trace = some hs ∧
+      ∀ w, w ∈ hs ↔ w ∈ (runSteps o fuel (runInit o fuel root t0) steps).lastHits.map Hit.w) ∧
+    hoverRun [] (runEvent o fuel (runSteps o fuel (runInit o fuel root t0) steps) .focusOut).trace = some [] :=
+  ⟨hover_alternates_partial o fuel root t0 steps (hitsNodup_of_ids t0 h0) (fun st h => StepOk.of_distinct (hs st h)),
+   hover_closed_on_focus_out o fuel root t0 steps (hitsNodup_of_ids t0 h0) (fun st h => StepOk.of_distinct (hs st h))⟩
+
+example : (ids (.node 0 9 9 [(1, 1, 0, .node 1 3 3 []), (0, 0, 1, .node 2 3 3 [(0, 0, 0, .node 3 1 1 [])])])).Nodup := by
+  decide
 
 end VaxisModel.Props.C15
